@@ -9,7 +9,7 @@ BASE = ("cd /repo && /venv/bin/python -m pytest -ra -q -p no:cacheprovider --tim
 # id -> (technique, level text, level note, design ref)
 CHECKS = {
  "C01": ("runtime monitoring: reference-model oracle (exact-rational component resolver + rounding model) over reloaded CFF drawings of generated UFOs",
-         "Exploration: thousands of generated UFOs (hostile coordinates, nested/mirrored/sheared components) compiled by the real compileOTF under every roundTolerance/cffVersion/optimizeCFF value; each reloaded glyph is compared with an independent exact-rational resolver. Held means: on all executions observed; nothing is claimed about inputs the generator never produced.",
+         "Exploration: thousands of generated UFOs (hostile coordinates, nested/mirrored/sheared components, explicit fractional CFF width bases in fontinfo) compiled by the real compileOTF under every roundTolerance/cffVersion/optimizeCFF value; each reloaded glyph is compared with an independent exact-rational resolver. Held means: on all executions observed; nothing is claimed about inputs the generator never produced.",
          "Trusts fontTools' CFF reader and RecordingPen; coordinates |v|<=16000, <=14 glyphs, depth<=5; normal form of DESIGN 4.1/4.2.",
          "DESIGN.md section 5 C01, 4.1, 4.2"),
  "C02": ("runtime monitoring: structural + segment-wise Bezier-distance oracle over reloaded glyf data of generated UFOs; maxp recomputed by own DFS",
@@ -25,7 +25,7 @@ CHECKS = {
          "Trusts fontTools' cmap/maxp readers; ASCII glyph names; '.notdef' carries no code point.",
          "DESIGN.md section 5 C03"),
  "C18": ("runtime monitoring: reference oracle over reloaded GDEF classes / ligature carets / GPOS cursive records and lookup flags of generated multi-script UFOs",
-         "Exploration: 3000 generated UFOs (category maps incl. invalid values, non-exported glyphs and maps that use a single class, boundary / origin caret and cursive anchor values, caret/vcaret anchors, one-sided and suffixed entry/exit anchors in mixed-direction repertoires with GSUB-reachable alternates, with/without user GDEF blocks) compiled by the real compileTTF; GDEF and CursivePos data read back and compared with the UFO data; script direction by an independent provenance closure.",
+         "Exploration: 3000 generated UFOs (category maps incl. invalid values, non-exported glyphs and maps that use a single class, boundary / origin caret and cursive anchor values, caret/vcaret anchors, one-sided and suffixed entry/exit anchors in mixed-direction repertoires with GSUB-reachable alternates and cursive glyphs encoded beyond the BMP only, with/without user GDEF blocks) compiled by the real compileTTF; GDEF and CursivePos data read back and compared with the UFO data; script direction by an independent provenance closure.",
          "Trusts fontTools' GDEF/GPOS readers and unicodedata; script-neutral glyphs must keep the right-to-left flag, glyphs of mixed provenance are not judged (counted).",
          "DESIGN.md section 5 C18"),
  "C20": ("runtime monitoring: reachability oracle over the reloaded GPOS ScriptList -> LangSys -> feature -> lookup -> coverage graph of generated multi-script UFOs",
@@ -33,15 +33,15 @@ CHECKS = {
          "Trusts fontTools' GPOS reader and unicodedata script data; script membership closed over the generated GSUB rules.",
          "DESIGN.md section 5 C20, section 6"),
  "C04": ("runtime monitoring: recomputation oracle over compiled and reloaded tables (raw hmtx/vmtx decoding, own Bezier extrema), byte comparison of save/reload/save, enumerated advance sequences",
-         "Exploration with an enumerated sub-space: all 363 advance sequences of length<=5 over {0,300,700} x TTF/OTF plus ~900 random UFOs (15 % of the CFF ones with a rounding tolerance: per-glyph bearings judged directionally, the rest not judged there); the compiled TTFont is judged twice - ufo2ft's own values before saving (fontTools recomputes hhea/head/OS2/numberOfHMetrics on save) and the reloaded font - against bearings, boxes, aggregates, long-metric counts, VORG, maxp, post names and OS/2 indices recomputed from the stored glyph data; save -> reload -> save (lazy and with every table decompiled) must be byte-identical.",
+         "Exploration with an enumerated sub-space: all 363 advance sequences of length<=5 over {0,300,700} x TTF/OTF plus ~900 random UFOs (U+0000 as lowest / only code point on 10 %; 15 % of the CFF ones with a rounding tolerance: per-glyph bearings judged directionally, the rest not judged there); the compiled TTFont is judged twice - ufo2ft's own values before saving (fontTools recomputes hhea/head/OS2/numberOfHMetrics on save) and the reloaded font - against bearings, boxes, aggregates, long-metric counts, VORG, maxp, post names and OS/2 indices recomputed from the stored glyph data; save -> reload -> save (lazy and with every table decompiled) must be byte-identical.",
          "Trusts fontTools' readers (hmtx/vmtx also decoded from raw bytes); CFF tolerances per DESIGN 4.6 as corrected (nearest-integer bearings, outward-rounded aggregates on save); SOURCE_DATE_EPOCH pinned.",
          "DESIGN.md section 5 C04, 4.6"),
  "C11": ("runtime monitoring: relation between executions (names on / off / lib default) with per-table byte comparison, plus a naming-rule oracle written from the statement",
-         "Exploration: ~560 generated UFOs (hostile glyph names, postscriptNames maps with duplicates/empty/illegal values, lib switches, TTF/CFF/CFF2 and a variable stratum), each compiled three times by the real compile functions; every table except post/'CFF ' must be byte-identical (head checksum masked), CFF charstrings and dict values equal per glyph index, final names unique, legal and admissible under the naming rules.",
+         "Exploration: ~560 generated UFOs (hostile glyph names, postscriptNames maps with duplicates/empty/illegal values, ligatures mixing BMP and supplementary-plane parts, lib switches, TTF/CFF/CFF2 and a variable stratum), each compiled three times by the real compile functions; every table except post/'CFF ' must be byte-identical (head checksum masked), CFF charstrings and dict values equal per glyph index, final names unique, legal and admissible under the naming rules.",
          "Trusts fontTools' sfnt reader; Latin-1 feature-file-safe source names; uniqueness numbering scheme not prescribed.",
          "DESIGN.md section 5 C11"),
  "C05": ("runtime monitoring: GPOS interpreter (shaper semantics over the reloaded tables) against an independent UFO kerning lookup, per script tag, for every ordered glyph pair",
-         "Exploration: 700 generated multi-script UFOs (all four kerning precedence levels with deliberate exceptions, zero/fractional/negative values incl. exact half-step ties of both parities at quantisation 1/2/5/10, script sets that need repeated merging, missing glyphs, unknown groups, GDEF marks, languagesystems none/some/all, quantisation, both kern writers); every ordered glyph pair is evaluated under every script tag by an interpreter of the compiled GPOS and compared with the UFO lookup (value, applied once, x-placement rule); three listed mechanisms are known findings, each re-exercised by a dedicated stratum.",
+         "Exploration: 700 generated multi-script UFOs (all four kerning precedence levels with deliberate exceptions, zero/fractional/negative values incl. exact half-step ties of both parities at quantisation 1/2/5/10, script sets that need repeated merging, missing glyphs, unknown groups, GDEF marks, languagesystems none/some/all, quantisation, both kern writers, writer objects that first served another font of other scripts); every ordered glyph pair is evaluated under every script tag by an interpreter of the compiled GPOS and compared with the UFO lookup (value, applied once, x-placement rule); three listed mechanisms are known findings, each re-exercised by a dedicated stratum.",
          "Trusts fontTools' GPOS/GDEF readers and unicodedata; shaper semantics of DESIGN section 3; quantifier of DESIGN 4.4.",
          "DESIGN.md section 5 C05, 4.4, section 6"),
  "C16": ("runtime monitoring: field-by-field reference oracle (independent fallback table) over reloaded name/OS2/hhea/head/post/CFF tables, plus an exhaustive sweep of every Unicode scalar through the PostScript-name normaliser",
@@ -49,11 +49,11 @@ CHECKS = {
          "Trusts fontTools' table readers; attributes without a destination in the listed tables are unchecked (listed in the evidence assumptions).",
          "DESIGN.md section 5 C16"),
  "C17": ("runtime monitoring: compiled feature text parsed back and compared with the user's statements (subsequence / marker-position oracle), GSUB bytes with vs without writers, writer call-order log",
-         "Exploration: 3000 generated feature files (languagesystems, classes, GSUB features, hand-written kern/mark/mkmk/curs/abvm/blwm/GDEF blocks (carets by position or by index) with the marker at top/middle/bottom/alone/mis-cased/twice) x writer lists (default, lib, explicit with ellipsis, skip/append, a harness GSUB writer placed last) compiled by the real compileTTF; the debug feature file is parsed back with feaLib and every user statement must survive in order, generated rules must sit at the marker, GSUB bytes must equal the no-writer compile, GSUB writers must run first (hook on BaseFeatureWriter.write).",
+         "Exploration: 3000 generated feature files (languagesystems, classes, GSUB features, hand-written kern/mark/mkmk/curs/abvm/blwm/GDEF blocks (carets by position or by index) with the marker at top/middle/bottom/alone/mis-cased/twice, ordinary comments that merely contain the marker text) x writer lists (default, lib, explicit with ellipsis, skip/append, a harness GSUB writer placed last) compiled by the real compileTTF; the debug feature file is parsed back with feaLib and every user statement must survive in order, generated rules must sit at the marker, GSUB bytes must equal the no-writer compile, GSUB writers must run first (hook on BaseFeatureWriter.write).",
          "Trusts feaLib's parser/asFea round trip (checked per case) and fontTools' sfnt reader.",
          "DESIGN.md section 5 C17"),
  "C15": ("runtime monitoring: before/after snapshots of real filter applications compared through the exact-rational resolver (rendering invariance, matrix image, anchor-position closure)",
-         "Exploration: 4000 component-graph fonts (depth<=4, shared bases, arbitrary affine transforms, anchors) x the real Decompose / DecomposeTransformed / Flatten / Transformations / PropagateAnchors filter objects with include/exclude/predicate selections on the font, a glyph-set copy or a foreign dict, and the interpolatable variants of Decompose / DecomposeTransformed / Flatten applied once to 2-3 compatible masters without an instantiator; the glyphs are read back and every glyph's fully resolved contours must equal (exactly for dyadic inputs) the original's, resp. its image under the requested matrix; propagated anchors must lie where some component path puts a base anchor; second application adds nothing.",
+         "Exploration: 4000 component-graph fonts (depth<=4, shared bases, arbitrary affine transforms, anchors) x the real Decompose / DecomposeTransformed / Flatten / Transformations / PropagateAnchors filter objects with include/exclude/predicate selections on the font, a glyph-set copy or a foreign dict, and the interpolatable variants of Decompose / DecomposeTransformed / Flatten applied once to 2-3 compatible masters without an instantiator; the glyphs are read back and every glyph's fully resolved contours must equal (exactly for dyadic inputs) the original's, resp. its image under the requested matrix; propagated anchors must lie where some component path puts a base anchor (and, when the composite has a non-mark component, where a base's anchor or an attaching mark's anchor lands); second application adds nothing.",
          "Exact for dyadic/integer inputs, 1e-9 relative otherwise; selection heuristics of anchor propagation deliberately not re-implemented.",
          "DESIGN.md section 5 C15"),
  "C06": ("runtime monitoring: GPOS interpreter (MarkBasePos / MarkLigPos / MarkMarkPos with lookup flags and filtering sets, later lookup wins) against anchor-difference candidates computed from the UFO",
@@ -61,7 +61,7 @@ CHECKS = {
          "Trusts fontTools' GPOS/GDEF readers; shaper semantics of DESIGN section 3; only the mark (and GDEF) writer runs.",
          "DESIGN.md section 5 C06, section 6"),
  "C13": ("runtime monitoring: relation between executions (with / without the skip list) over reloaded outlines, order, cmap, metrics and GPOS results evaluated by the interpreter",
-         "Exploration: 500 component-graph UFOs with kerning groups, mark anchors and categories x random skip subsets (nested chains, mirrored references, group members) delivered by argument / UFO lib / both / designspace lib / the union of the master UFOs' libs (compileInterpolatableTTFs on a master list), OTF and TTF, static plus interpolatable and variable strata, plus a sparse-master stratum (leaf <- middle <- top chains whose skipped inner glyphs have non-linear sparse layer masters; optionally on two axes with sparse sources that omit the axis they leave at its default; the variable fonts compiled with and without the skip list are read back at nine axis positions); each compiled twice by the real compile functions; skipped names must be absent everywhere, the remaining glyphs' contour multisets (OTF exact, TTF within the stored-form error bound), advances, order, cmap, kerning and mark attachment must be unchanged.",
+         "Exploration: 500 component-graph UFOs with kerning groups, mark anchors and categories x random skip subsets (nested chains, mirrored references, group members; category maps that name only non-exported glyphs) delivered by argument / UFO lib / both / designspace lib / the union of the master UFOs' libs (compileInterpolatableTTFs on a master list), OTF and TTF, static plus interpolatable and variable strata, plus a sparse-master stratum (leaf <- middle <- top chains whose skipped inner glyphs have non-linear sparse layer masters; optionally on two axes with sparse sources that omit the axis they leave at its default; the variable fonts compiled with and without the skip list are read back at nine axis positions); each compiled twice by the real compile functions; skipped names must be absent everywhere, the remaining glyphs' contour multisets (OTF exact, TTF within the stored-form error bound), advances, order, cmap, kerning and mark attachment must be unchanged.",
          "Trusts fontTools' readers; TTF cases restricted to line/quadratic sources; feature text without GSUB rules.",
          "DESIGN.md section 5 C13"),
  "C07": ("runtime monitoring: deep before/after state snapshots of every source object, identity-aliasing check at working-copy creation, recording dicts (tripwires) keyed by call site, source-free failpoints (sys.monitoring) for the raising executions",
@@ -73,7 +73,7 @@ CHECKS = {
          "Glyph state = outline, components, anchors, metrics, unicodes, lib; over-reporting only counted.",
          "DESIGN.md section 5 C14, 2.3"),
  "C08": ("runtime monitoring: per-table sha256 digests of saved fonts compared across fresh interpreters started with different PYTHONHASHSEED values and across library / memory-vs-disk / inplace / call-history variants",
-         "Exploration: 64 cases (10 repository fixtures + generated layout-heavy UFOs incl. the groupMarkClasses option with a deliberate colouring tie, outline UFOs with lib filters incl. colliding propagated anchor names and a mark-of-marks composite whose curve component's control box exceeds its outline box, contextual anchors, generated designspaces) each compiled in 4 fresh interpreters (PYTHONHASHSEED 0-3; thorough: 8) under {defcon, ufoLib2} x {in memory, saved and re-opened} x {first call, second call on the same objects, after another compile function, inplace=True}; all digests of one (case, function, options) must be equal, a mismatch is localised to the table. ufo2ft has no threads: hash order and call history are the only schedules.",
+         "Exploration: 64 cases (10 repository fixtures + generated layout-heavy UFOs incl. the groupMarkClasses option with a deliberate colouring tie, outline UFOs with lib filters incl. colliding propagated anchor names and a mark-of-marks composite whose curve component's control box exceeds its outline box, contextual anchors, generated designspaces, one case whose ftConfig option object asking for GPOS compaction is shared by every call) each compiled in 4 fresh interpreters (PYTHONHASHSEED 0-3; thorough: 8) under {defcon, ufoLib2} x {in memory, saved and re-opened} x {first call, second call on the same objects, after another compile function, inplace=True}; all digests of one (case, function, options) must be equal, a mismatch is localised to the table. ufo2ft has no threads: hash order and call history are the only schedules.",
          "SOURCE_DATE_EPOCH pinned; head checksum masked; complete public.glyphOrder except in the per-library stratum.",
          "DESIGN.md section 5 C08"),
  "C19": ("runtime monitoring: closed-form variation reference (exact rationals, independent of varLib/fontMath) against real Instantiator instances; deep before/after snapshots of all sources; repeated generation from one instantiator",
@@ -85,7 +85,7 @@ CHECKS = {
          "Masters compatible by construction; placeholder glyphs of sparse masters exempt from the structure comparison.",
          "DESIGN.md section 5 C09"),
  "C10": ("runtime monitoring: the compiled variable font is evaluated at every master location by fontTools' instancer (trusted reader) and compared with the interpolatable master (outlines, advances) and - through the GPOS interpreter - with that master's kerning and anchor data",
-         "Exploration: 800 generated compatible families (1-2 axes, intermediate and sparse masters, axis maps, aligned / ragged per-master kerning with exceptions, kerning groups present in one master only, lib categories with base-mark kerning, per-master anchors) through compileVariableTTF / compileVariableCFF2 with variableFeatures on and off, plus a pre-filter stratum (PropagateAnchors: the master compiled alone with the same filter is the reference for attachments that exist only after the filter); at each full master's location outlines and advances must be within one unit of the interpolatable master with identical point structure, kerning must equal the master's UFO lookup and mark attachment one of the master's anchor candidates (exact, +-1 / +-2 only for masters strictly inside another master's support).",
+         "Exploration: 800 generated compatible families (1-2 axes, intermediate and sparse masters, axis maps, aligned / ragged per-master kerning with exceptions, kerning groups present in one master only, lib categories with base-mark kerning, per-master anchors) through compileVariableTTF / compileVariableCFF2 (10 %: compileVariableTTFs / CFF2s on a designspace defining the whole space plus single-axis variable fonts that use a subset of the shuffled sources) with variableFeatures on and off, plus a pre-filter stratum (PropagateAnchors: the master compiled alone with the same filter is the reference for attachments that exist only after the filter); at each full master's location outlines and advances must be within one unit of the interpolatable master with identical point structure, kerning must equal the master's UFO lookup and mark attachment one of the master's anchor candidates (exact, +-1 / +-2 only for masters strictly inside another master's support).",
          "Trusts fontTools.varLib.instancer; kerning judged for pairs where the static compile of the master alone already gives the UFO value (C05 covers the rest).",
          "DESIGN.md section 5 C10, 4.5, section 6"),
 }
